@@ -26,6 +26,7 @@ func underBaton(seed uint64, body func() int) int {
 	live := map[int]bool{0: true}
 	blocked := map[int]bool{}
 	last := 0
+	streak := 0 // consecutive "blocked" reports
 	for len(live) > 0 {
 		var cand []int
 		for id := range live {
@@ -34,7 +35,51 @@ func underBaton(seed uint64, body func() int) int {
 			}
 		}
 		sort.Ints(cand)
+		if len(cand) == 0 && streak < 2*len(live)+2 {
+			// everybody reported blocked: ask each one again, in turn, before
+			// concluding anything (what one client did just before it blocked
+			// may be what another one was waiting for)
+			var ids []int
+			for id := range live {
+				ids = append(ids, id)
+			}
+			sort.Ints(ids)
+			next := ids[0]
+			for _, id := range ids {
+				if id > last {
+					next = id
+					break
+				}
+			}
+			who, kind := zzsimrt.Grant(next, 0)
+			for _, id := range zzsimrt.TakeSpawned() {
+				live[id] = true
+			}
+			if who != next {
+				// the client asked again completed a rendezvous: progress
+				blocked = map[int]bool{}
+				streak = 0
+			}
+			last = who
+			switch kind {
+			case zzsimrt.KBlocked:
+				streak++
+				blocked[who] = true
+			case zzsimrt.KTaskDone:
+				delete(live, who)
+				if who != 0 {
+					zzsimrt.Release(who)
+				}
+				blocked = map[int]bool{}
+				streak = 0
+			default:
+				blocked = map[int]bool{}
+				streak = 0
+			}
+			continue
+		}
 		if len(cand) == 0 && zzsimrt.AdvanceClock() {
+			streak = 0
 			// nobody could run: the simulated clock jumped to its next event
 			blocked = map[int]bool{}
 			for _, id := range zzsimrt.TakeSpawned() {
@@ -58,15 +103,23 @@ func underBaton(seed uint64, body func() int) int {
 		if len(live) > 1 {
 			slice = int64(r.Range(200, 30000))
 		}
-		_, kind := zzsimrt.Grant(pick, slice)
-		last = pick
+		who, kind := zzsimrt.Grant(pick, slice)
 		for _, id := range zzsimrt.TakeSpawned() {
 			live[id] = true
 		}
+		if who != pick {
+			// a rendezvous on an unbuffered channel passed the baton on: progress
+			blocked = map[int]bool{}
+			streak = 0
+			pick = who
+		}
+		last = pick
 		switch kind {
 		case zzsimrt.KBlocked:
 			blocked[pick] = true
+			streak++
 		case zzsimrt.KTaskDone:
+			streak = 0
 			delete(live, pick)
 			if pick != 0 {
 				zzsimrt.Release(pick)
@@ -76,6 +129,7 @@ func underBaton(seed uint64, body func() int) int {
 				zzsimrt.SetDeadlocked(false)
 			}
 		default:
+			streak = 0
 			blocked = map[int]bool{}
 			zzsimrt.SetDeadlocked(false)
 		}
